@@ -34,6 +34,9 @@ func (t *tr) mutatedParams(F *fn) map[types.Object]bool {
 				mark(n.X)
 			}
 		case *ast.CallExpr:
+			if bigMutated(n, mark) {
+				return true
+			}
 			if se, ok := n.Fun.(*ast.SelectorExpr); ok {
 				if sel, ok := t.info.Selections[se]; ok {
 					if m2, ok := sel.Obj().(*types.Func); ok {
@@ -261,7 +264,7 @@ func (t *tr) structDefs() []string {
 		for i := 0; i < st.NumFields(); i++ {
 			f := st.Field(i)
 			lt, err := leanTypeE(f.Type())
-			if err != nil {
+			if err != nil || strings.HasPrefix(lt, "Go.Big") {
 				return
 			}
 			if fn, ok := f.Type().(*types.Named); ok && fn.Obj().Pkg() == t.pkg {
@@ -329,6 +332,9 @@ func (t *tr) write(dir string) {
 		f := strings.TrimSuffix(F.file, ".go")
 		if F.text {
 			f += "Text"
+		}
+		if F.big {
+			f += "Big"
 		}
 		if F.usesFloat {
 			f += "Float"
@@ -402,6 +408,7 @@ func (t *tr) write(dir string) {
 		placedG[g] = put(g.file, deps, g.lines, "")
 	}
 	visiting := map[*fn]bool{}
+	bigFile := map[string]bool{} // module files of the math/big layer: they import Go/Big.lean
 	placeF = func(F *fn) {
 		if placedF[F] != nil {
 			return
@@ -431,21 +438,30 @@ func (t *tr) write(dir string) {
 			placeG(g)
 			deps = append(deps, placedG[g])
 		}
+		if F.big {
+			bigFile[modFile(F)] = true
+		}
 		placedF[F] = put(modFile(F), deps, F.lines, F.name)
 		visiting[F] = false
 	}
 	// Two passes: everything outside the text layer first, in the order that produced the modules
 	// the proofs are tied to; then the text-layer functions (never called from the first group),
 	// which therefore cannot pull a callee forward inside an existing module.
+	// Third pass: the math/big layer (big.go), for the same reason.
 	for _, it := range items {
-		if it.F != nil && !it.F.text {
+		if it.F != nil && !it.F.text && !it.F.big {
 			placeF(it.F)
 		} else if it.G != nil {
 			placeG(it.G)
 		}
 	}
 	for _, it := range items {
-		if it.F != nil && it.F.text {
+		if it.F != nil && it.F.text && !it.F.big {
+			placeF(it.F)
+		}
+	}
+	for _, it := range items {
+		if it.F != nil && it.F.big {
 			placeF(it.F)
 		}
 	}
@@ -455,6 +471,9 @@ func (t *tr) write(dir string) {
 		b.WriteString(header + "import D128.Gen.Types\n")
 		if strings.HasSuffix(m.file, "Float.go") {
 			b.WriteString("import D128.Go.Float\n")
+		}
+		if bigFile[m.file] {
+			b.WriteString("import D128.Go.Big\n")
 		}
 		var ds []string
 		for d := range m.deps {
@@ -484,6 +503,11 @@ func (t *tr) write(dir string) {
 		Unmodelled []string `json:"unmodelled,omitempty"`
 		// calls of other packages' functions inside a panic message (the message is not modelled)
 		Dropped []string `json:"panic_message_calls_dropped,omitempty"`
+		// math/big layer: parameters covered by `if p == nil { p = new(T) }` (a nil argument is the
+		// value 0), and parameters whose object the Go function also stores its result into (the
+		// model returns the value only)
+		BigNilDefaulted []string `json:"big_nil_defaulted_params,omitempty"`
+		BigStored       []string `json:"big_args_stored,omitempty"`
 	}
 	var rep struct {
 		Functions []frep            `json:"functions"`
@@ -494,6 +518,7 @@ func (t *tr) write(dir string) {
 		r := frep{Name: F.name, File: F.file, Monadic: F.monadic, Globals: F.usesG, Skip: F.skip, Writes: F.writes}
 		if F.skip == "" {
 			r.Unmodelled, r.Dropped = F.unmodelled, F.dropped
+			r.BigNilDefaulted, r.BigStored = F.bigReport()
 		}
 		if m := placedF[F]; m != nil {
 			r.Module = m.name
